@@ -70,7 +70,9 @@ def instrument(inp, out, entry, enforce, replace, loops_file, log, timeout=300, 
         cmd += ['--enforce-contract', e]
     for r in replace:
         cmd += ['--replace-call-with-contract', r]
-    cmd += ['--apply-loop-contracts']
+    if loops_file:
+        # without a loops file there is nothing to apply, and DFCC mis-tracks locals of loops it skips
+        cmd += ['--apply-loop-contracts']
     if extra:
         cmd += extra
     cmd += [inp, out]
